@@ -69,10 +69,10 @@ macro_rules! ribbon_caps {
 }
 
 /// capacities for which a monomorphised instance exists
-pub const RIBBON_CAPS: [usize; 14] = [1, 2, 3, 5, 16, 18, 50, 69, 171, 375, 750, 817, 1000, 3265];
+pub const RIBBON_CAPS: [usize; 26] = [1, 2, 3, 4, 5, 9, 13, 16, 18, 26, 43, 50, 69, 137, 171, 188, 213, 266, 375, 545, 638, 750, 817, 1000, 1633, 3265];
 
 pub fn make_ribbon(cap: usize, sr: f32, sp: f32, dr: f32, pu: f32) -> Option<Box<dyn RibbonDyn>> {
-    ribbon_caps!(cap, sr, sp, dr, pu; 1, 2, 3, 5, 16, 18, 50, 69, 171, 375, 750, 817, 1000, 3265)
+    ribbon_caps!(cap, sr, sp, dr, pu; 1, 2, 3, 4, 5, 9, 13, 16, 18, 26, 43, 50, 69, 137, 171, 188, 213, 266, 375, 545, 638, 750, 817, 1000, 1633, 3265)
 }
 
 pub enum Obj {
@@ -118,15 +118,17 @@ pub fn adsr_obs(a: &Adsr) -> String {
 
 pub fn lfo_obs(l: &Lfo) -> String {
     let pa = l.verif_state();
+    // a waveform read that panics is reported as NaN so that the position that caused it stays visible
+    let g = |w: Waveshape| fb(catch_unwind(AssertUnwindSafe(|| l.get(w))).unwrap_or(f32::NAN));
     format!(
         "{} {} {} {} {} {} {}",
         pa.0,
         pa.2,
-        fb(l.get(Waveshape::Sine)),
-        fb(l.get(Waveshape::Triangle)),
-        fb(l.get(Waveshape::UpSaw)),
-        fb(l.get(Waveshape::DownSaw)),
-        fb(l.get(Waveshape::Square))
+        g(Waveshape::Sine),
+        g(Waveshape::Triangle),
+        g(Waveshape::UpSaw),
+        g(Waveshape::DownSaw),
+        g(Waveshape::Square)
     )
 }
 
